@@ -146,8 +146,30 @@ def _classify(exc, tb):
                                                "".join(traceback.format_exception(type(exc), exc, tb))[-3000:])
 
 
+CASE_TIMEOUT_S = float(os.environ.get("VERIF_CASE_TIMEOUT_S", "150"))
+_HB = {"file": None}
+
+
+def _heartbeat(sub, case):
+    """remember the case being run (for the parent, should this process hang inside compiled code) and (re)arm the
+    C-level watchdog, which needs no GIL: no result within CASE_TIMEOUT_S => traceback dump + process exit"""
+    f = _HB["file"]
+    if f is None:
+        return
+    import faulthandler
+    try:
+        f.seek(0)
+        f.write(json.dumps({"sub": sub.name, "case": case}, default=str))
+        f.truncate()
+        f.flush()
+    except Exception:  # noqa
+        pass
+    faulthandler.dump_traceback_later(CASE_TIMEOUT_S, exit=True)
+
+
 def _guard(sub, ctx, case):
     """run fn on one case, recording the failure for the replay file"""
+    _heartbeat(sub, case)
     try:
         sub.fn(case, ctx)
     except BaseException as e:  # noqa
@@ -250,6 +272,7 @@ def worker_main(argv):
     only = argv[7] if len(argv) > 7 and argv[7] else None
     t0 = time.time()
     result = {"shard": shard, "subs": {}, "failures": [], "regressions_run": 0}
+    _HB["file"] = open(out + ".hb", "w")
     try:
         mod = load_checks(prop)
         subs = mod.subchecks()
@@ -287,6 +310,11 @@ def worker_main(argv):
         result["failures"].append({"sub": None, "case": None, "kind": "harness",
                                    "message": "worker crashed: " + "".join(
                                        traceback.format_exception(type(e), e, e.__traceback__))[-4000:]})
+    try:
+        import faulthandler
+        faulthandler.cancel_dump_traceback_later()
+    except Exception:  # noqa
+        pass
     result["wall_s"] = round(time.time() - t0, 2)
     tmp = out + ".tmp"
     with open(tmp, "w") as f:
@@ -406,7 +434,22 @@ def parent_main(prop, tier, seed, nshards=NSHARDS_DEFAULT, only=None, budget_s=N
                 results.append(json.load(f))
         else:
             with open(os.path.join(outdir, "shard%d.log" % k)) as f:
-                harness_errors.append("shard %d wrote no result (rc=%s): %s" % (k, p.returncode, f.read()[-2000:]))
+                logtail = f.read()[-2500:]
+            hb = None
+            try:
+                with open(out + ".hb") as f:
+                    hb = json.load(f)
+            except Exception:  # noqa
+                pass
+            if hb is not None and "Timeout (" in logtail:
+                # the C-level watchdog fired: a single case did not return within CASE_TIMEOUT_S
+                results.append({"shard": k, "subs": {}, "regressions_run": 0, "failures": [{
+                    "sub": hb["sub"], "case": hb["case"], "kind": "violation",
+                    "message": "no result within %.0f s on this case (hang); innermost frames: %s" % (
+                        CASE_TIMEOUT_S, " | ".join(ln.strip() for ln in logtail.splitlines()
+                                                   if ln.strip().startswith("File"))[:600])}]})
+            else:
+                harness_errors.append("shard %d wrote no result (rc=%s): %s" % (k, p.returncode, logtail))
 
     # ---- aggregate
     evaluations = 0
